@@ -214,13 +214,18 @@ func fieldString(fs []log.Field, key string) string {
 type RecAppender struct {
 	log.AppenderBase
 	Slow     int  `PluginAttribute:"slow,default=0"`
+	RecKey   string // recorder to use when the appender itself has no name (code-built appenders)
 	StartLog bool `PluginAttribute:"startLog,default=false"` // the appender reports its own start through a tag (a component logging while Refresh is under way)
 	rec      *Rec
 }
 
 func (a *RecAppender) r() *Rec {
 	if a.rec == nil {
-		a.rec = getRec(a.Name)
+		key := a.Name
+		if a.RecKey != "" {
+			key = a.RecKey // appenders built in code need not carry a name
+		}
+		a.rec = getRec(key)
 		if a.Slow > 0 {
 			a.rec.Slow = a.Slow
 		}
